@@ -982,6 +982,8 @@ def facet_universes():
         ('dt values', dict(_prim('dt'), _values=[{'dt': [2020, 1, 2, 3, 4, 5, 0, None]}, {'dt': [2020, 1, 2, 3, 4, 5, 6, -289]}]), 'ok'),
         ('dur values', dict(_prim('dur'), _values=[{'dur': '1800000000'}, {'dur': '0'}, {'dur': '-86400500000'}]), 'ok'),
         ('bool values', dict(_prim('bool'), _values=[{'b': True}]), 'spyne-enum-bool'),
+        ('gt>=ge', _prim('int', gt='5', ge='3'), 'spyne-both'),
+        ('lt<=le', _prim('int', lt='3', le='10'), 'spyne-both'),
     ]
     out = []
     for i, (label, p, cls) in enumerate(cases):
@@ -1064,17 +1066,22 @@ def canon_real_schema_x(docs, nsmap):
     """like canon_real_schema, for documents with <xs:attribute>, <xs:simpleContent> and <xs:choice>:
     complex[key] = [base, items of the own sequence, own attributes, simpleContent base]"""
     from lxml import etree
-    out = {'simple': {}, 'complex': {}, 'elements': {}, 'imports': set()}
+    out = {'simple': {}, 'complex': {}, 'elements': {}, 'imports': set(), 'defaults': []}
     x = lambda n: '{%s}%s' % (XS, n)
+    cur = [None]
 
     def particle(p):
-        if p.tag != x('element') or set(p.attrib) - {'name', 'type', 'minOccurs', 'maxOccurs', 'nillable'}:
+        if p.tag != x('element') or set(p.attrib) - {'name', 'type', 'minOccurs', 'maxOccurs', 'nillable', 'default'}:
             raise Unmodelled('particle %s %r' % (p.tag, dict(p.attrib)))
+        if p.get('default') is not None:
+            out['defaults'].append((cur[0], p.get('name'), p.get('default')))      # compared with the model's literal
         return [p.get('name'), _qn(p, p.get('type')), _occ(p)]
 
     def attribute(a):
-        if set(a.attrib) - {'name', 'type', 'use'} or a.get('use') not in (None, 'required'):
+        if set(a.attrib) - {'name', 'type', 'use', 'default'} or a.get('use') not in (None, 'required'):
             raise Unmodelled('attribute %r' % dict(a.attrib))
+        if a.get('default') is not None:
+            out['defaults'].append((cur[0], a.get('name'), a.get('default')))
         return [a.get('name'), _qn(a, a.get('type')), a.get('use') == 'required']
     for pref, root in docs.items():
         tns = root.get('targetNamespace')
@@ -1100,6 +1107,7 @@ def canon_real_schema_x(docs, nsmap):
                     raise Unmodelled('duplicate simpleType')
                 out['simple'][key] = [base, facets]
             elif el.tag == x('complexType'):
+                cur[0] = el.get('name')
                 base, data, holder = None, None, el
                 kids = list(el)
                 if kids and kids[0].tag == x('complexContent'):
@@ -1209,6 +1217,8 @@ def _occ_kwargs_choice(occ):
     kw = _ORIG_OCC_KWARGS(occ)
     if occ.get('choice'):
         kw['xml_choice_group'] = occ['choice']
+    if occ.get('default') is not None:
+        kw['default'] = xb.to_native_one(None, None, occ['default'])
     return kw
 
 
@@ -1270,6 +1280,15 @@ def attr_universe(rng, idx, data_facets=False):
                 while p['t'] == 'str' and not _admits_empty(p):
                     p = xb.gen_prim(rng, facets=True)
                 t['p'] = p
+    for c in u['classes']:
+        for k, t in c['own']:
+            # `default=`: written into the declaration with the protocol's to_unicode, and on the wire in place of None
+            # (a required attribute with a default is a contradictory declaration: XSD demands use=optional there)
+            if t['k'] == 'prim' and t.get('mk') != 'data' and t['p']['t'] not in ('enum', 'bytes') and t['o']['max'] == 1 \
+                    and not (t.get('mk') == 'attribute' and t['o']['min'] > 0) and rng.random() < 0.25:
+                v = xb.gen_prim_val(rng, t['p'])
+                if v is not None and xb.py_conforms_one(dict(t, o=dict(t['o'], nillable=True)), v):
+                    t['o']['default'] = v
     for c in u['classes']:
         cand = [t for k, t in c['own'] if not t.get('mk') and t['o']['min'] == 0]
         if len(cand) >= 1 and rng.random() < 0.45:
@@ -1411,12 +1430,15 @@ def mutate_kinds(rng, b, root_ty, root, groups):
     return doc, op
 
 
-def doc_in_domain_x(b, ty, node, vt=None):
-    """doc_in_domain for documents of classes with attribute / data members: their literals too"""
+def doc_in_domain_x(b, ty, node, vt=None, dflt=()):
+    """doc_in_domain for documents of classes with attribute / data members: their literals too. An EMPTY element of a
+    member that declares a default takes that default for XSD; the reference validator has no defaults: outside."""
     if any(k == XSI_TYPE for k, _ in node['a']):
         return False
+    if ty is not None and ty['k'] == 'obj' and any(c['n'] in dflt and not c['c'] and c['x'] is None for c in node['c']):
+        return False
     if ty is None:
-        return all(doc_in_domain_x(b, None, c, vt) for c in node['c'])
+        return all(doc_in_domain_x(b, None, c, vt, dflt) for c in node['c'])
     if ty['k'] == 'obj':
         byname = dict(ty['fields'])
         for k, v in node['a']:
@@ -1434,10 +1456,42 @@ def doc_in_domain_x(b, ty, node, vt=None):
                     return False
                 if not lex_domain(xs_type_of(t['p']), s):
                     return False
-        return all(doc_in_domain_x(b, ct, c, vt) for c, ct in match_children(b, ty, node))
+        return all(doc_in_domain_x(b, ct, c, vt, dflt) for c, ct in match_children(b, ty, node))
     if ty['k'] == 'prim':
         return doc_in_domain(b, ty, node, vt)
-    return all(doc_in_domain_x(b, ct, c, vt) for c, ct in match_children(b, ty, node))
+    return all(doc_in_domain_x(b, ct, c, vt, dflt) for c, ct in match_children(b, ty, node))
+
+
+def stream_t3(ctx, app, r, vschema, replay, want_tag=None):
+    """the second emission path of XmlDocument (ctx.out_stream -> incgen -> lxml's incremental writer): the document it
+    writes for the same response object must be valid against the published schema too"""
+    from lxml import etree
+    if getattr(r, 'out_object', None) is None or getattr(r, 'descriptor', None) is None:
+        return
+    try:
+        root = xb.stream_serialize(app, r.descriptor, r.out_object)
+    except Exception as e:
+        # no document, no schema verdict (classes with XmlAttribute members cannot be streamed: the incremental writer has
+        # no .set(); the XML codec's defect, build-XML's switch streamSameTree) — counted
+        ctx.hit('stream:not-serialisable:%s' % type(e).__name__)
+        return
+    ctx.hit('stream:response')
+    if unresolved_xsi_types(root):
+        ctx.hit('stream:xsi-type-prefix-undeclared')
+        ctx.finding('emitted-invalid:xsi-type-prefix-not-in-scope',
+                    'the polymorphic response written to ctx.out_stream carries xsi:type="%s" but no declaration of that prefix: '
+                    'the QName does not resolve and the document is invalid against spyne\'s own schema'
+                    % unresolved_xsi_types(root)[0][0].get(XSI_TYPE), dict(replay, stream=True, response=etree.tostring(root).decode('utf-8', 'replace')))
+        return
+    if want_tag is not None and root.tag != want_tag:
+        ctx.finding('emitted-invalid:streamed-response:root-element',
+                    'the response written to ctx.out_stream is the element %s, the document path (and the schema\'s element for '
+                    'this method) says %s' % (root.tag, want_tag), dict(replay, stream=True, response=etree.tostring(root).decode('utf-8', 'replace')))
+        return
+    if not vschema.validate(root):
+        ctx.finding('emitted-invalid:streamed-response:%s' % invalid_reason(vschema, root),
+                    'the response spyne writes to ctx.out_stream for conformant values is invalid against its own schema (%s)'
+                    % last_error(vschema, root), dict(replay, stream=True, response=etree.tostring(root).decode('utf-8', 'replace')))
 
 
 def model_parallel(ctx, Q, k=4):
@@ -1513,6 +1567,299 @@ def methods_table(app):
                 own.add(k)
     noelem = [list(k) for k in sorted(any_ - own)]
     return {'elems': elems, 'noElem': noelem}
+
+
+# ====================================================================================== gallery: hand-built declarations
+# Dimensions of complex_add / xml_attribute_add / the to_parent handlers that the shared type universe (xmlblock) cannot
+# express: annotations, defaults, a private parent, excluded members, AnyXml / AnyDict / xs:any, Decimal / Double / Float,
+# totalDigits / fractionDigits / number patterns, Uuid / AnyUri, sub_name on members and classes, SOAP header classes.
+# T3 only: the schema compiles, the documents spyne writes for a conformant instance (request by its client, response by
+# its server, and the streamed response) are valid against it. Every case is a function of an index so that a replay
+# rebuilds exactly the classes and the instance.
+XSD_ANY = '{http://www.w3.org/2001/XMLSchema}any'
+
+
+def gallery_cases():
+    import datetime, decimal, uuid
+    from lxml import etree
+    from spyne import ComplexModel, XmlAttribute
+    from spyne.model.primitive import (AnyXml, AnyDict, AnyHtml, Unicode, Integer, Integer8, Boolean, Date, DateTime, Decimal,
+                                       Double, Float, Uuid, AnyUri)
+    D = decimal.Decimal
+    cases = []
+
+    def case(name, **opts):
+        def deco(f):
+            cases.append((name, f, opts))
+            return f
+        return deco
+
+    @case('annotations', n=4)
+    def _(i):
+        class Ann(ComplexModel):
+            """A documented class."""
+            __namespace__ = 'urn:ga'
+
+            class Annotations(ComplexModel.Annotations):
+                appinfo = [{'k': 'v', 'n': {'m': '1'}}, 'plain text', etree.Element('{urn:x}info'), None][i % 4]
+            _type_info = [('a', Unicode(doc='member doc')), ('b', Integer(doc='another'))]
+        if i % 4 == 3:
+            Ann.__doc__ = 'only a docstring'
+        return Ann, Ann(a='x', b=3)
+
+    @case('annotation-object')
+    def _(i):
+        class Info(ComplexModel):
+            __namespace__ = 'urn:gi'
+            _type_info = [('author', Unicode)]
+
+        class Ann(ComplexModel):
+            __namespace__ = 'urn:ga'
+
+            class Annotations(ComplexModel.Annotations):
+                appinfo = Info(author='me')
+            _type_info = [('a', Unicode)]
+        return Ann, Ann(a='x')
+
+    @case('defaults', n=3, bad=[('i', 'x'), ('r', '2'), ('d', '2020-02-30')])
+    def _(i):
+        class Dflt(ComplexModel):
+            __namespace__ = 'urn:ga'
+            _type_info = [('i', Integer(default=5)), ('s', Unicode(default='a b')), ('b', Boolean(default=False)),
+                          ('d', Date(default=datetime.date(2020, 2, 29))), ('r', Integer8(ge=3, default=4)),
+                          ('dt', DateTime(default=datetime.datetime(2020, 1, 2, 3, 4, 5))),
+                          ('dec', Decimal(6, 2, default=D('1.50'))), ('at', XmlAttribute(Unicode(default='q')))]
+        return Dflt, [Dflt(), Dflt(i=1, s='z', b=True, d=datetime.date(1999, 1, 1), r=9, at='w'), Dflt(s='', r=3)][i % 3]
+
+    @case('private-parent', n=2, bad=[('q', '')])
+    def _(i):
+        class Priv(ComplexModel):
+            __namespace__ = 'urn:ga'
+
+            class Attributes(ComplexModel.Attributes):
+                exc_interface = True
+            _type_info = [('p', Unicode), ('q', Integer(min_occurs=1))]
+
+        class Pub(Priv):
+            __namespace__ = 'urn:ga'
+
+            class Attributes(Priv.Attributes):
+                exc_interface = False
+            _type_info = [('r', Unicode)]
+        return Pub, [Pub(p='x', q=1, r='y'), Pub(q=2)][i % 2]
+
+    @case('excluded-members', n=2)
+    def _(i):
+        class Exc(ComplexModel):
+            __namespace__ = 'urn:ga'
+            _type_info = [('a', Unicode), ('hidden', Unicode(exc=True, exc_interface=True)), ('schemaonly', Unicode(exc=True)),
+                          ('z', Integer)]
+        return Exc, [Exc(a='x', hidden='h', schemaonly='s', z=1), Exc(z=2)][i % 2]
+
+    @case('any', n=3)
+    def _(i):
+        class Any1(ComplexModel):
+            __namespace__ = 'urn:ga'
+            _type_info = [('x', AnyXml), ('d', AnyDict), ('t', Unicode)]
+        return Any1, [Any1(x=etree.fromstring('<q xmlns="urn:z"><r>1</r></q>'), d={'k': ['v']}, t='t'),
+                      Any1(d={'a': [{'b': ['c']}]}), Any1(x=etree.fromstring('<q a="1">text</q>'))][i % 3]
+
+    @case('any-wildcard', n=4)
+    def _(i):
+        class AnyW(ComplexModel):
+            __namespace__ = 'urn:ga'
+            _type_info = [('w', AnyXml(schema_tag=XSD_ANY, namespace='##any', process_contents=['lax', 'skip'][i % 2]))]
+        return AnyW, [AnyW(w=etree.fromstring('<o xmlns="urn:other"/>')), AnyW()][(i // 2) % 2]
+
+    @case('anyhtml', expect='emitted-invalid:anyhtml-element-under-xs-string')
+    def _(i):
+        class H(ComplexModel):
+            __namespace__ = 'urn:ga'
+            _type_info = [('h', AnyHtml)]
+        return H, H(h=etree.fromstring('<p>hi</p>'))
+
+    @case('numbers', n=4, bad=[('d', '1.234'), ('d', '123456789'), ('da', '1.23'), ('e', '1.4'), ('e', '10'), ('g', '0.4'), ('t', '12345'),
+                               ('m', '5'), ('pt', '+12'), ('pd', '3.1'), ('f', 'inf'), ('d', '1E+2')])
+    def _(i):
+        class Num(ComplexModel):
+            __namespace__ = 'urn:ga'
+            _type_info = [('d', Decimal(8, 2)), ('e', Decimal(ge=D('1.5'), lt=10)), ('f', Double), ('g', Float(ge=0.5)),
+                          ('t', Integer(total_digits=4)), ('m', Integer(gt=5, ge=3)), ('pt', Integer(pattern='[0-9]+')),
+                          ('pd', Decimal(pattern=r'\d+\.\d\d')), ('da', XmlAttribute(Decimal(5, 1)))]
+        return Num, [Num(d=D('123456.78'), e=D('1.5'), f=1e300, g=0.5, t=9999, m=6, pt=12, pd=D('3.10'), da=D('1234.5')),
+                     Num(d=D('-0.05'), e=D('9.999999999999999999'), f=float('inf'), g=1e7, t=-9999),
+                     Num(d=D('0'), f=float('-inf'), g=0.5, t=0, m=7, da=D('-0.1')),
+                     Num(d=D('100.00'), e=D('2'), f=-0.0, t=1)][i % 4]
+
+    @case('decimal-scientific', n=3, expect='emitted-invalid:decimal-scientific-notation')
+    def _(i):
+        # DESIGN D04 (C08 lex:decimal:scientific): str(Decimal) in exponent form is not an xs:decimal literal
+        class Sci(ComplexModel):
+            __namespace__ = 'urn:ga'
+            _type_info = [('d', Decimal)]
+        return Sci, Sci(d=[D('1E+2'), D('2.8E+10'), D('0E-7')][i % 3])
+
+    @case('uuid-anyuri', n=2, bad=[('u', 'zz'), ('u', '00000000-0000-0000-0000-00000000000g')])
+    def _(i):
+        class Misc(ComplexModel):
+            __namespace__ = 'urn:ga'
+            _type_info = [('u', Uuid), ('a', AnyUri), ('us', Uuid(max_occurs=2))]
+        return Misc, [Misc(u=uuid.UUID(int=5), a='http://x/y?z=1 2', us=[uuid.UUID(int=2 ** 128 - 1)]), Misc(a='')][i % 2]
+
+    @case('uuid-attribute')
+    def _(i):
+        class MiscA(ComplexModel):
+            __namespace__ = 'urn:ga'
+            _type_info = [('v', Unicode), ('ua', XmlAttribute(Uuid)), ('ra', XmlAttribute(AnyUri, use='required'))]
+        return MiscA, MiscA(v='x', ua=uuid.UUID(int=7), ra='urn:q')
+
+    @case('sub-name', n=2, bad=[('beta', 'x')])
+    def _(i):
+        class Inner(ComplexModel):
+            __namespace__ = 'urn:ga'
+            _type_info = [('v', Unicode)]
+
+        class Sub(ComplexModel):
+            __namespace__ = 'urn:gb'
+            _type_info = [('a', Unicode(sub_name='alpha')), ('b', Integer(sub_name='beta', min_occurs=1)),
+                          ('l', Unicode(sub_name='item', max_occurs=3)), ('i', Inner.customize(sub_name='inner')), ('j', Inner)]
+        return Sub, [Sub(a='x', b=2, l=['p', 'q'], i=Inner(v='1'), j=Inner(v='2')), Sub(b=0)][i % 2]
+
+    @case('sub-ns', expect='emitted-invalid:member-sub-ns-not-in-schema')
+    def _(i):
+        class SubNs(ComplexModel):
+            __namespace__ = 'urn:ga'
+            _type_info = [('a', Unicode(sub_ns='urn:elsewhere'))]
+        return SubNs, SubNs(a='x')
+
+    @case('soap-headers', protos=('soap11', 'soap12'))
+    def _(i):
+        class Hin(ComplexModel):
+            __namespace__ = 'urn:gh1'
+            _type_info = [('tok', Unicode)]
+
+        class Hout(ComplexModel):
+            __namespace__ = 'urn:gh2'
+            _type_info = [('n', Integer8(ge=3)), ('at', XmlAttribute(Unicode))]
+
+        class Body(ComplexModel):
+            __namespace__ = 'urn:ga'
+            _type_info = [('v', Unicode)]
+        return Body, Body(v='x'), {'in_header': (Hin,), 'out_header': (Hout,), 'hdr': Hout(n=5, at='z'), 'in_hdr_val': Hin(tok='t')}
+    return cases
+
+
+def gallery_run(name, f, opts, i, proto, verbose=False):
+    """build the application of one gallery case and push one instance through client and server; returns a list of
+    (stage, ok, detail, document)"""
+    from lxml import etree
+    from spyne import Application, rpc, ServiceBase, MethodContext
+    from spyne.protocol.xml import XmlDocument
+    from spyne.protocol.soap import Soap11, Soap12
+    from spyne.server import ServerBase
+    r = f(i)
+    C, inst, extra = (r + ({},))[:3]
+    kw = {}
+    if extra.get('in_header'):
+        kw['_in_header'] = extra['in_header']
+    if extra.get('out_header'):
+        kw['_out_header'] = extra['out_header']
+
+    def echo(ctx, x):
+        if extra.get('hdr') is not None:
+            ctx.out_header = extra['hdr']
+        return x
+    svc = type('GSvc', (ServiceBase,), {'echo': rpc(C, _returns=C, **kw)(echo)})
+    P = {'xml': XmlDocument, 'soap11': Soap11, 'soap12': Soap12}[proto]
+    out = []
+    xb._APP_COUNTER[0] += 1
+    try:
+        app = Application([svc], 'urn:g', name='Gallery%d' % xb._APP_COUNTER[0], in_protocol=P(validator='lxml'), out_protocol=P())
+    except Exception as e:
+        return [('compile', False, '%s: %s' % (type(e).__name__, str(e)[:300]), None)]
+    out.append(('compile', True, '', None))
+    vs = app.in_protocol.validation_schema
+    try:
+        data = emit_request(app, '{urn:g}echo', [inst])
+    except Exception as e:
+        return out + [('request-crash', False, '%s: %s' % (type(e).__name__, str(e)[:200]), None)]
+    body = body_el(proto, data, app.in_protocol)
+    okb = body is not None and bool(vs.validate(body))
+    out.append(('request', okb, '' if okb else last_error(vs, body), data.decode('utf-8', 'replace')))
+    if okb:
+        # the declared constraints are IN the schema: a literal that breaks one is refused (when the member is present)
+        import copy as _copy
+        for member, lit in opts.get('bad', ()):
+            b2 = _copy.deepcopy(body)
+            hits = [e for e in b2.iter() if isinstance(e.tag, str) and etree.QName(e).localname == member and len(e) == 0
+                    and e.get(XSI_NIL_ATTR) is None]
+            if not hits:
+                continue
+            hits[0].text = lit
+            acc = bool(vs.validate(b2))
+            out.append(('rejects:%s=%s' % (member, lit), not acc, 'the published schema accepts %r for member %s' % (lit, member),
+                        etree.tostring(b2).decode('utf-8', 'replace')))
+    server = ServerBase(app)
+    ctx0 = MethodContext(server, MethodContext.SERVER)
+    ctx0.in_string = [data]
+    c = server.generate_contexts(ctx0)[0]
+    if c.in_error is None:
+        server.get_in_object(c)
+    if c.in_error is not None:
+        return out + [('served', False, 'the server refuses spyne\'s own request: %s' % (c.in_error,), data.decode('utf-8', 'replace'))]
+    server.get_out_object(c)
+    if c.out_error is not None:
+        return out + [('served', False, 'out_error %s' % (c.out_error,), None)]
+    out_object, descriptor = c.out_object, c.descriptor
+    server.get_out_string(c)
+    resp = b''.join(c.out_string)
+    rb = body_el(proto, resp)
+    okr = rb is not None and bool(vs.validate(rb))
+    out.append(('response', okr, '' if okr else last_error(vs, rb), resp.decode('utf-8', 'replace')))
+    if extra.get('hdr') is not None:
+        env = etree.fromstring(resp)
+        hdr = [h for h in env if etree.QName(h).localname == 'Header']
+        kids = list(hdr[0]) if hdr else []
+        okh = bool(kids) and all(vs.validate(k) for k in kids)
+        out.append(('out-header', okh, '' if okh else ('no header written' if not kids else last_error(vs, kids[0])), resp.decode('utf-8', 'replace')))
+    if proto == 'xml':
+        try:
+            root = xb.stream_serialize(app, descriptor, out_object)
+            oks = bool(vs.validate(root))
+            out.append(('streamed-response', oks, '' if oks else last_error(vs, root), etree.tostring(root).decode()))
+        except Exception as e:
+            out.append(('stream-crash', None, '%s: %s' % (type(e).__name__, str(e)[:200]), None))
+    return out
+
+
+def part_gallery(ctx, rng):
+    import warnings
+    for name, f, opts in gallery_cases():
+        for proto in opts.get('protos', ('xml', 'soap11')):
+            n = opts.get('n', 1)
+            # every variant under XmlDocument, one drawn variant under the other protocols (all of them in the thorough tier)
+            for i in (range(n) if (proto == opts.get('protos', ('xml',))[0] or ctx.thorough) else [rng.randrange(n)]):
+                with warnings.catch_warnings():
+                    warnings.simplefilter('ignore')
+                    res = gallery_run(name, f, opts, i, proto)
+                replay = {'kind': 'gallery', 'name': name, 'i': i, 'proto': proto}
+                ctx.case({'gallery': name, 'i': i, 'p': proto}, True)
+                ctx.cov['traces_validated_against_impl'] += 1
+                for stage, ok, detail, doc in res:
+                    ctx.hit('gallery:%s:%s:%s' % (name, stage, {True: 'ok', False: 'FAIL', None: 'n/a'}[ok]))
+                    if ok is False:
+                        fid = opts.get('expect') if (opts.get('expect') and stage in ('request', 'response', 'served', 'streamed-response')) \
+                            else 'gallery:%s:%s' % (name, stage.split('=')[0])
+                        ctx.finding(fid, 'declaration "%s" (%s): %s — %s' % (name, proto, {
+                            'compile': 'the published schema is refused by libxml2 / cannot be built',
+                            'request-crash': 'spyne\'s client cannot serialise a conformant instance',
+                            'request': 'the request spyne\'s client writes is invalid against the published schema',
+                            'served': 'the request spyne\'s client writes is refused by the server',
+                            'response': 'the response spyne writes is invalid against the published schema',
+                            'out-header': 'the SOAP header spyne writes is invalid against the published schema',
+                            'streamed-response': 'the response written to ctx.out_stream is invalid against the published schema',
+                        }.get(stage, 'a declared constraint is missing from the published schema' if stage.startswith('rejects:') else stage), detail), dict(replay, stage=stage, document=doc))
+                        break
 
 
 # ====================================================================================== run
@@ -1767,6 +2114,7 @@ def run(ctx):
                                         dict(replay, response=(r.out or b'').decode('utf-8', 'replace')))
                             continue
                         if proto == 'xml':
+                            stream_t3(ctx, app, r, vschema, replay, resp_body.tag)
                             # T2: the reference validator agrees that both are valid (documents without xsi:type)
                             for body, ty in ((req_body, in_ty), (resp_body, out_ty)):
                                 nd = xb.node_of(body)
@@ -1878,6 +2226,23 @@ def run(ctx):
                 raise core.Infra('the real schema uses a construct outside the modelled subset: %s' % e)
             canon = None        # documents libxml2 refuses: only the compile verdict is compared
         ask(dict(op='genA', **A), (canon, ok), 'genA', {'universe': u})
+        # `default=` of element and attribute declarations: the literal the model's leaf encoder writes for the value
+        decl = dict(((c['name'], k), t) for c in u['classes'] for k, t in c['own'] if t['o'].get('default') is not None)
+        dflt = set(k for _, k in decl)
+        if canon is not None:
+            seen_d = set()
+            for cname, member, lit in canon['defaults']:
+                t = decl.get((cname, member))
+                if t is None:
+                    ctx.disagree('default-undeclared', {'x': True, 'universe': u, 'class': cname, 'member': member}, lit, None)
+                    continue
+                seen_d.add((cname, member))
+                ctx.hit('default:%s:%s' % (t.get('mk') or 'element', t['p']['t']))
+                ask({'op': 'defaultLit', 'p': t['p'], 'val': t['o']['default']}, {'lit': cps(lit)}, 'defaultLit',
+                    {'x': True, 'universe': u, 'class': cname, 'member': member})
+            published = set(k[1] for k in canon['complex'])         # classes no method reaches are not in the interface
+            for km in sorted(k for k in set(decl) - seen_d if k[0] in published):
+                ctx.disagree('default-not-published', {'x': True, 'universe': u, 'class': km[0], 'member': km[1]}, None, decl[km]['o']['default'])
         if not ok:
             kind = classify_compile_error(vs)
             ctx.hit('compile-refused:' + kind)
@@ -1942,9 +2307,10 @@ def run(ctx):
                                     dict(replay, response=(r.out or b'').decode('utf-8', 'replace')))
                         continue
                     if proto == 'xml':
+                        stream_t3(ctx, app, r, vschema, replay)
                         for body, ty in ((req_body, in_ty), (resp_body, out_ty)):
                             nd = xb.node_of(body)
-                            if doc_in_domain_x(b, ty, nd):
+                            if doc_in_domain_x(b, ty, nd, None, dflt):
                                 valid_docs.append((ty, nd, 'emitted'))
                             for t2, n2 in typed_nodes(b, ty, nd):
                                 if t2['k'] == 'obj' and n2['a'] and not any(k == XSI_NIL for k, _ in n2['a']):
@@ -1971,7 +2337,7 @@ def run(ctx):
                     continue
                 seen = xb.node_of(parsed)
                 lx = bool(vschema.validate(parsed))
-                indom = doc_in_domain_x(b, ty, seen)
+                indom = doc_in_domain_x(b, ty, seen, None, dflt)
                 docs.append(seen)
                 impls.append({'lxml': lx, 'tag': tag, 'indom': indom})
                 ctx.case({'u': u['idx'], 'm': mname, 'doc': seen}, True)
@@ -1981,7 +2347,7 @@ def run(ctx):
     # ---------------------------------------------------------------- bare methods: the message IS the argument class
     n_bare = 60 if ctx.thorough else 10
     for ui in range(n_bare):
-        u = bare_universe(rng, 8000 + ui)
+        u = bare_universe(rng, 8500 + ui)
         with warnings.catch_warnings():
             warnings.simplefilter('ignore')
             b = build_classes(u)
@@ -2049,6 +2415,7 @@ def run(ctx):
                                         proto, last_error(vschema, resp_body)), dict(replay, response=(r.out or b'').decode('utf-8', 'replace')))
                         continue
                     if proto == 'xml':
+                        stream_t3(ctx, app, r, vschema, replay, resp_body.tag)
                         nd = xb.node_of(body_el(proto, data, app.in_protocol))
                         cand = [(nd, 'emitted')] + [x for x in (mutate(rng, b, in_ty, nd) for _ in range(3)) if x is not None]
                         for d2, tag in cand:
@@ -2061,6 +2428,8 @@ def run(ctx):
                             ctx.hit('doc-bare:%s' % tag.split(':')[0].split('+')[0])
             if docs:
                 ask(dict(op='valid', docs=docs, **A), impls, 'validM', {'universe': u, 'method': mname, 'docs': docs})
+    # ---------------------------------------------------------------- gallery of hand-built declarations (T3)
+    part_gallery(ctx, rng)
     # ---------------------------------------------------------------- compare with the model
     answers = model_parallel(ctx, Q)
     wf_of, same_of = {}, {}
@@ -2103,6 +2472,9 @@ def run(ctx):
                 ctx.disagree('wf-implies-compiles', {'universe': case['universe']}, ok, [mod['compiles'], mod['resolvesOk']])
             if ok and not mod['wf'] and 'label' not in case:
                 ctx.hit('universe-outside-wf')
+        elif op == 'defaultLit':
+            if mod != impl:
+                ctx.disagree('default-literal', case, impl, mod)
         elif op == 'validM':
             for doc, im, mo in zip(case['docs'], impl, mod['ok']):
                 if im['indom']:
@@ -2256,6 +2628,18 @@ def replay(ctx, obj):
         f = measure_facts06()
         print('measured now:', obj['fact'], '=', f.get(obj['fact']), ' expected', obj.get('expected'))
         return 0 if f.get(obj['fact']) == obj.get('expected') else 1
+    if kind == 'gallery':
+        case = [c for c in gallery_cases() if c[0] == obj['name']][0]
+        with warnings.catch_warnings():
+            warnings.simplefilter('ignore')
+            res = gallery_run(case[0], case[1], case[2], obj['i'], obj['proto'])
+        bad = 0
+        for stage, ok, detail, doc in res:
+            print('%-18s %s %s' % (stage, {True: 'ok', False: 'FAIL', None: 'n/a'}[ok], detail))
+            if doc and ok is not True:
+                print('    ', doc[:1500])
+            bad += ok is False
+        return 1 if bad else 0
     u = obj.get('universe')
     if u is None:
         print(json.dumps(obj, indent=1)[:2000])
